@@ -110,8 +110,9 @@ type state struct {
 	cnt     map[string]int
 	stack   []frame
 	events  []event
-	aborted bool // depth cap hit during this op
-	enters  int  // module evaluations started in this op
+	aborted bool           // depth cap hit during this op
+	enters  int            // module evaluations started in this op
+	codeFns map[string]int // body of a `run code` op -> number of the function that holds its compiled form
 
 	// oracle's own bookkeeping
 	toks    map[int]*tokInfo
@@ -363,6 +364,7 @@ func implReset(st *state, f []string) string {
 		st.cnt[p]++
 	}
 	st.ev = ev
+	st.codeFns = map[string]int{}
 	return "ok"
 }
 
@@ -394,6 +396,19 @@ func implRun(st *state, f []string) string {
 	st.events, st.aborted, st.enters = nil, false, 0
 	st.stack = nil
 	code := st.actsCode("T", body)
+	// Code that is not from a file is kept as a function of the interpreter
+	// and CALLED again when the same body comes back (possibly with another
+	// working directory): the same compiled `use` forms run more than once,
+	// as they do in a function or loop body of an interactive session.
+	if origin != "file" {
+		if n, ok := st.codeFns[body]; ok {
+			code = fmt.Sprintf("c22-run-%d", n)
+		} else {
+			n = len(st.codeFns)
+			st.codeFns[body] = n
+			code = fmt.Sprintf("fn c22-run-%d {\n%s\n}\nc22-run-%d", n, code, n)
+		}
+	}
 	src := parse.Source{Name: "[c22 code]", Code: code}
 	if origin == "file" {
 		src = parse.Source{Name: st.real(dir) + "/script.elv", Code: code, IsFile: true}
@@ -833,6 +848,12 @@ func genHistory(c *common.Ctx, emit func(...string)) {
 			acts = append(acts, a+genSpec(r, files, libs, pre, bun, from))
 		}
 		emit("run", origin, dir, cwd, strings.Join(acts, ","))
+		if origin == "code" && r.Chance(1, 2) {
+			// the same code again from other working directories
+			for k := r.Range(1, 2); k > 0; k-- {
+				emit("run", origin, dir, common.Pick(r, dirPool), strings.Join(acts, ","))
+			}
+		}
 	}
 }
 
